@@ -7,6 +7,7 @@ from __future__ import annotations
 
 import ast
 import builtins
+import collections
 import functools
 import types
 
@@ -34,6 +35,8 @@ class _Continue(Exception):
 
 
 class Env:
+    OVERLAY: dict = {}  # (id(module dict), name) -> value written during the current run
+
     __slots__ = ("vars", "parent", "glob", "nonlocals", "globals_decl", "defcls", "self_", "fname")
 
     def __init__(self, parent, glob, defcls=None, fname="?"):
@@ -52,6 +55,9 @@ class Env:
             if name in e.vars:
                 return e.vars[name]
             e = e.parent
+        ov = Env.OVERLAY.get((id(self.glob), name), Env)
+        if ov is not Env:
+            return ov
         if name in self.glob:
             return self.glob[name]
         if hasattr(builtins, name):
@@ -68,7 +74,8 @@ class Env:
                 e = e.parent
             raise Unsupported(f"nonlocal {name} not found")
         if name in self.globals_decl:
-            raise Unsupported(f"write to global {name}")
+            Env.OVERLAY[(id(self.glob), name)] = value  # module state of this run (never the real module)
+            return
         self.vars[name] = value
 
 
@@ -251,12 +258,21 @@ class Interp:
                 if isinstance(v, property):
                     return v
                 return v
+        if type(obj).__name__ == "SAbsSet":
+            d = getattr(dict, name, None) if name == "get" else getattr(list, name, None)
+            if d is None:
+                self.py_raise(AttributeError, f"'list' object has no attribute '{name}'")
+            return SBound(d, obj)
         if type(obj).__name__ == "SByteList":
             d = getattr(bytearray, name, None)
             if d is None:
                 self.py_raise(AttributeError, f"'bytearray' object has no attribute '{name}'")
             return SBound(d, obj)
         # real object
+        if isinstance(obj, types.ModuleType):
+            ov = Env.OVERLAY.get((id(obj.__dict__), name), Env)
+            if ov is not Env:
+                return ov
         try:
             return getattr(obj, name)
         except AttributeError as e:
@@ -374,11 +390,11 @@ class Interp:
         if callable(f) and not is_symbolic(args) and not is_symbolic(kwargs):
             return self.call_real(f, args, kwargs)
         if callable(f) and getattr(f, "__self__", None) is not None and isinstance(
-                f.__self__, (list, dict, set)) and f.__name__ in (
+                f.__self__, (list, dict, set, collections.deque)) and f.__name__ in (
                 "append", "extend", "insert", "add", "update", "setdefault", "pop", "clear", "copy",
-                "items", "values", "keys"):
+                "items", "values", "keys", "popleft", "appendleft"):
             # container mutators are safe to run for real with symbolic payloads
-            if f.__name__ in ("append", "insert", "extend", "clear", "copy", "items", "values", "keys"):
+            if f.__name__ in ("append", "insert", "extend", "clear", "copy", "items", "values", "keys", "popleft", "appendleft"):
                 return f(*args, **kwargs)
             if f.__name__ in ("add",) and not is_symbolic(args):
                 return f(*args)
